@@ -93,6 +93,17 @@ func c14Gen(g *Gen) []Case {
 	for y := 2001; y <= 2027; y++ {
 		cs = append(cs, Case{K: "step", A: []int{y}}, Case{K: "rate", A: []int{y}})
 	}
+	for k := 0; k < 8; k++ {
+		cs = append(cs, Case{K: "shuffled", A: []int{k}})
+	}
+	// every possible single addition: all months in thorough, a seeded third of them in quick
+	for y := 2000; y <= 2027; y++ {
+		for m := 1; m <= 12; m++ {
+			if !g.Quick || g.Rng.Intn(3) == 0 || (y == 2019 && m >= 10) || (y == 2021 && m == 12) {
+				cs = append(cs, Case{K: "add1", A: []int{y, m}})
+			}
+		}
+	}
 	if g.Quick {
 		cs = append(cs, batchCases("fix", 40, 5)...)
 	} else {
@@ -116,6 +127,10 @@ func c14Run(w *W, c Case) {
 		c14Step(w, c.A[0])
 	case "rate":
 		c14Rate(w, c.A[0])
+	case "shuffled":
+		c14Shuffled(w, c.A[0])
+	case "add1":
+		c14Add1(w, c.A[0], c.A[1])
 	case "fix":
 		for i := 0; i < c.A[1]; i++ {
 			c14Fix(w, c.A[0]*1000+i)
@@ -239,6 +254,148 @@ func c14Views(w *W, recs []hrec, ctx string, full bool, focus ...hrec) {
 
 func sameStr(got []string, want []hrec) bool { return sameList(got, want) }
 
+// c14AllYM: every by-year and by-month view from 1995 to 2031 against the record set (a fix-up touching one record
+// must leave the views of every other year and month alone).
+func c14AllYM(w *W, recs []hrec, ctx string) {
+	byMonth := map[string][]hrec{}
+	byYear := map[string][]hrec{}
+	for _, r := range recs {
+		byMonth[r.day[:6]] = append(byMonth[r.day[:6]], r)
+		byYear[r.day[:4]] = append(byYear[r.day[:4]], r)
+	}
+	for y := 1995; y <= 2031; y++ {
+		ys := fmt.Sprintf("%04d", y)
+		if gl := listStrings(HolidayUtil.GetHolidaysByYear(y)); !sameStr(gl, byYear[ys]) {
+			w.Violatef("by-year", ctx+"/"+ys, "[%s] year %s: GetHolidaysByYear has %d records %v, record set has %d %v", ctx, ys, len(gl), gl, len(byYear[ys]), byYear[ys])
+		}
+		for m := 1; m <= 12; m++ {
+			ym := fmt.Sprintf("%04d%02d", y, m)
+			if gl := listStrings(HolidayUtil.GetHolidaysByYm(y, m)); !sameStr(gl, byMonth[ym]) {
+				w.Violatef("by-month", ctx+"/"+ym, "[%s] month %s: GetHolidaysByYm=%v, record set has %v", ctx, ym, gl, byMonth[ym])
+			}
+		}
+		w.Eval(13)
+	}
+}
+
+// c14Shuffled: the views asked in a seeded shuffled order (the "views" case walks forwards through the calendar, so a
+// look-up that remembers where the previous one ended would never be asked to go back).
+func c14Shuffled(w *W, k int) {
+	w.Class("shuffled-lookups")
+	recs, _ := parseTable(HolidayUtil.VerifDataInUse(), HolidayUtil.VerifNamesInUse())
+	byDay := map[string]hrec{}
+	byMonth := map[string][]hrec{}
+	byYear := map[string][]hrec{}
+	byTarget := map[string][]hrec{}
+	var days []string
+	for _, r := range recs {
+		byDay[r.day] = r
+		byMonth[r.day[:6]] = append(byMonth[r.day[:6]], r)
+		byYear[r.day[:4]] = append(byYear[r.day[:4]], r)
+		byTarget[r.target] = append(byTarget[r.target], r)
+	}
+	// recorded days, their neighbours, and a sprinkling of ordinary days
+	for _, r := range recs {
+		j := ref.JDN(atoi(r.day[:4]), atoi(r.day[4:6]), atoi(r.day[6:8]))
+		for dj := -2; dj <= 2; dj++ {
+			y, m, d := ref.FromJDN(j + dj)
+			days = append(days, fmt.Sprintf("%04d%02d%02d", y, m, d))
+		}
+	}
+	rng := w.Rng
+	for i := 0; i < 2000; i++ {
+		y, m, d := randDayIn(rng, 2000, 2027)
+		days = append(days, fmt.Sprintf("%04d%02d%02d", y, m, d))
+	}
+	rng.Shuffle(len(days), func(i, j int) { days[i], days[j] = days[j], days[i] })
+	if k < 7 {
+		days = days[:len(days)/3]
+	}
+	for i, d := range days {
+		y, m, dd := atoi(d[:4]), atoi(d[4:6]), atoi(d[6:8])
+		w.Curf("C14 shuffled lookup %s", d)
+		want := "nil"
+		if r, ok := byDay[d]; ok {
+			want = r.String()
+		}
+		switch i % 4 {
+		case 0, 1:
+			if got := holStr(HolidayUtil.GetHolidayByYmd(y, m, dd)); got != want {
+				w.Violatef("by-day", "shuffled/"+d, "GetHolidayByYmd(%s) = %s after look-ups of other days, record set has %s", dash(d), got, want)
+			}
+		case 2:
+			if gl := listStrings(HolidayUtil.GetHolidaysByYm(y, m)); !sameStr(gl, byMonth[d[:6]]) {
+				w.Violatef("by-month", "shuffled/"+d[:6], "GetHolidaysByYm(%d,%d) = %v after look-ups of other days, record set has %v", y, m, gl, byMonth[d[:6]])
+			}
+			if gl := listStrings(HolidayUtil.GetHolidaysByTargetYmd(y, m, dd)); !sameStr(gl, byTarget[d]) {
+				w.Violatef("by-target", "shuffled/"+d, "GetHolidaysByTargetYmd(%s) = %v after look-ups of other days, record set has %v", dash(d), gl, byTarget[d])
+			}
+		case 3:
+			if gl := listStrings(HolidayUtil.GetHolidaysByYear(y)); !sameStr(gl, byYear[d[:4]]) {
+				w.Violatef("by-year", "shuffled/"+d[:4], "GetHolidaysByYear(%d) has %d records after look-ups of other days, record set has %d", y, len(gl), len(byYear[d[:4]]))
+			}
+			// stepping over working days from here, both ways, against the record set
+			j := ref.JDN(y, m, dd)
+			for _, n := range []int{2, -2} {
+				e, rest, dir := j, 2, 1
+				if n < 0 {
+					dir = -1
+				}
+				for rest > 0 {
+					e += dir
+					if c14Working(byDay, e) {
+						rest--
+					}
+				}
+				ey, em, ed := ref.FromJDN(e)
+				if got := calendar.NewSolarFromYmd(y, m, dd).Next(n, true).ToYmd(); got != ymd(ey, em, ed) {
+					w.Violatef("workday-step", fmt.Sprintf("shuffled/%s%+d", d, n), "%s.Next(%d,true) = %s after look-ups of other days, the record set puts it at %s", dash(d), n, got, ymd(ey, em, ed))
+				}
+			}
+		}
+		w.Eval(1)
+		w.Distinct(1)
+	}
+}
+
+// c14Add1: every single-record addition in one month (each day, three kinds of target), each from a fresh table:
+// all year and month views, the day itself and its target must equal the record set with that one record added.
+func c14Add1(w *W, y, m int) {
+	w.Class("single-additions")
+	HolidayUtil.VerifReset()
+	names := HolidayUtil.VerifNamesInUse()
+	base, _ := parseTable(HolidayUtil.VerifDataInUse(), names)
+	has := map[string]bool{}
+	for _, r := range base {
+		has[r.day] = true
+	}
+	for d := 1; d <= ref.LastDayOfMonth(y, m); d++ {
+		day := fmt.Sprintf("%04d%02d%02d", y, m, d)
+		if has[day] {
+			continue
+		}
+		for k, target := range []string{day, fmt.Sprintf("%04d1001", y), fmt.Sprintf("%04d0101", y+1)} {
+			ni := (d + k) % len(names)
+			nr := hrec{day: day, name: names[ni], work: (d+k)%2 == 0, target: target}
+			seg := day + string(rune('0'+ni)) + map[bool]string{true: "0", false: "1"}[nr.work] + target
+			HolidayUtil.VerifReset()
+			w.Curf("C14 single addition %s", seg)
+			if pv := Call(func() { HolidayUtil.Fix(nil, seg) }); pv != nil {
+				w.Violatef("fix", "add1/"+seg, "Fix(nil, %q) panicked: %v", seg, pv)
+				continue
+			}
+			want := append(append([]hrec{}, base...), nr)
+			sort.Slice(want, func(i, j int) bool { return want[i].day < want[j].day })
+			ctx := "after Fix " + seg
+			c14AllYM(w, want, ctx)
+			c14Views(w, want, ctx, false, nr)
+			w.Distinct(1)
+			w.Count("single-additions", 1)
+		}
+	}
+	HolidayUtil.VerifReset()
+}
+
 func atoi(s string) int {
 	n := 0
 	for _, c := range s {
@@ -333,6 +490,15 @@ func c14Rate(w *W, y int) {
 		if got := s.GetSalaryRate(); got != want {
 			w.Violatef("salary-rate", ymd(cy, cm, cd), "GetSalaryRate(%s)=%d, rule gives %d (statutory=%v, working=%v)", ymd(cy, cm, cd), got, want, statutory, c14Working(byDay, j))
 		}
+		// the multiplier is the day's: a Solar of the same day that carries a clock time, or that was reached by stepping
+		// or through a Julian day, gets the same answer
+		t := T0[j%len(T0)]
+		for ri, s2 := range []*calendar.Solar{calendar.NewSolar(cy, cm, cd, t[0], t[1], t[2]), calendar.NewSolar(cy, cm, cd, 23, 59, 59), s.NextDay(-1).NextDay(1), calendar.NewSolar(cy, cm, cd, 12, 0, 0).GetLunar().GetSolar(), calendar.NewSolarFromJulianDay(calendar.NewSolar(cy, cm, cd, 18, 30, 0).GetJulianDay())} {
+			if got := s2.GetSalaryRate(); got != want {
+				w.Violatef("salary-rate", fmt.Sprintf("%s/route%d", ymd(cy, cm, cd), ri), "GetSalaryRate of %s (route %d: clock time / 23:59:59 / stepped / via lunar / via Julian day) = %d, rule gives %d for the day", s2.ToYmdHms(), ri, got, want)
+			}
+		}
+		w.Eval(5)
 		if statutory {
 			w.Count("statutory-days", 1)
 		}
@@ -547,6 +713,7 @@ func c14Fix(w *W, id int) {
 	w.Eval(len(want))
 	// the views must reflect the fix-ups (keys touched by this scenario)
 	c14Views(w, want, ctx, false, touched...)
+	c14AllYM(w, want, ctx)
 	// ... and so must workday stepping and the pay multiplier around every touched day
 	byDay := map[string]hrec{}
 	for _, r := range want {
